@@ -437,6 +437,7 @@ def run(chk, prog):
     chk.used(pa)
     sp_ = I.scan(pa)
     st = [a for a in sp_.accesses if a.kind == "store" and a.base == "_data" and a.idx is not None]
+    A.require(st, "Impedance::operator+=: no element store to the sample vector _data found (member renamed?)")
     ok = len(st) == 1 and st[0].op == "+=" and st[0].value is not None and str(st[0].value) == "rhs._data[%s]" % st[0].idx[0] and st[0].loops[0].lo == 0
     chk.check(ok, "R5", pa.where, "operator+= adds sample i of the right-hand side to sample i (%s)" % (st[0].value if st else None), "operator+=:elementwise")
     chk.notes.append("C16: sample counts and zero upper half by a symbolic model of the vector operations, passivity and side by a sign lattice over "
